@@ -163,6 +163,10 @@ def shards(tier):
         for a0 in range(NACT):
             if tier == 'quick':
                 out.append(dict(name=f'sched2/prog={PROGS[prog]},a0={a0}', harness='sched2', fixed=dict(prog=prog, a0=a0), budget_s=300))
+                if PROGS[prog] in (1, 2, 3):
+                    for a1 in range(NACT):
+                        out.append(dict(name=f'sched3/prog={PROGS[prog]},a0={a0},a1={a1}', harness='sched3',
+                                        fixed=dict(prog=prog, a0=a0, a1=a1), budget_s=600))
             else:
                 for a1 in range(NACT):
                     out.append(dict(name=f'sched3/prog={PROGS[prog]},a0={a0},a1={a1}', harness='sched3',
@@ -174,7 +178,7 @@ def shards(tier):
 
 
 BOUNDS = {
-    'quick': dict(requests='K = 2 over pause(msg)/play/resume(v) in gaps (the environment additionally plays at every idle point where the process is paused, so pause-play-pause sequences are covered)', positions=f'gaps 0..{NPOS}',
+    'quick': dict(requests='K = 2 (all programs) and K = 3 (P1, P2, P3) over pause(msg)/play/resume(v) in gaps (the environment additionally plays at every idle point where the process is paused, so pause-play-pause sequences are covered)', positions=f'gaps 0..{NPOS}',
                   programs='P0 P1 P2 P3 P6 P7 P8', data='resume value int (symbolic, same in reference run), pause message str len <= 1..2'),
     'thorough': dict(requests='K = 3 (all programs), K = 4 (P2, P3)', positions=f'gaps 0..{NPOS}', programs='P0 P1 P2 P3 P6 P7 P8', data='resume value int; pause message fixed'),
 }
